@@ -22,6 +22,7 @@ import (
 	"fmt"
 	"io"
 	"io/ioutil"
+	"math"
 
 	"github.com/go-netty/go-netty"
 	"github.com/go-netty/go-netty/codec"
@@ -135,13 +136,19 @@ func unpackFieldLength(byteOrder binary.ByteOrder, fieldLen int, buff []byte) (f
 }
 
 func packFieldLength(byteOrder binary.ByteOrder, fieldLen int, dataLen int64) []byte {
+	// the value must be representable in the field, otherwise the peer would read a different
+	// (truncated) length than the body that follows.
+	utils.AssertIf(dataLen < 0, "negative length field: %d", dataLen)
 	lengthBuff := make([]byte, fieldLen)
 	switch fieldLen {
 	case 1:
+		utils.AssertIf(dataLen > math.MaxUint8, "length %d does not fit into a %d byte length field", dataLen, fieldLen)
 		lengthBuff[0] = byte(dataLen)
 	case 2:
+		utils.AssertIf(dataLen > math.MaxUint16, "length %d does not fit into a %d byte length field", dataLen, fieldLen)
 		byteOrder.PutUint16(lengthBuff, uint16(dataLen))
 	case 4:
+		utils.AssertIf(dataLen > math.MaxUint32, "length %d does not fit into a %d byte length field", dataLen, fieldLen)
 		byteOrder.PutUint32(lengthBuff, uint32(dataLen))
 	case 8:
 		byteOrder.PutUint64(lengthBuff, uint64(dataLen))
